@@ -490,6 +490,23 @@ def model_ops(model_out):
     return [tuple(x.split(":", 1)) for x in t.split(",") if x]
 
 
+def model_inodes(model_out):
+    """{path bytes: 'S' | 'N' | 'G'} - what HardLinks.irun makes of the model's log for each file of the start tree (same
+    inode, fresh inode, gone) - and whether HardLinks.nrun accepts the log (truthful); (None, None) if not printed"""
+    if " || INODES " not in model_out:
+        return None, None
+    t = model_out.split(" || INODES ")[1].split(" || ")
+    res = {}
+    for x in t[0].strip().split(","):
+        if not x:
+            continue
+        path, v = x.rsplit(":", 1)
+        if path == "-":
+            continue
+        res[b"/".join(bytes.fromhex(c) for c in path.split("/"))] = v
+    return res, (len(t) > 1 and t[1].strip() == "TRUTHFUL")
+
+
 def shrink_cands(w):
     """smaller workspaces: fewer patches (from the end), fewer file patches, fewer files"""
     sl = [l for l in w["series"].split(b"\n") if l.strip() and not l.startswith(b"#")]
